@@ -11,7 +11,8 @@ Everything on the heap has a concrete shape; only scalars may be symbolic.
 import math
 import struct
 import sys
-import z3
+from . import sx
+from .sx import E
 
 
 class Unsupported(Exception):
@@ -155,7 +156,7 @@ class Coro:
 
 
 def is_sym(v):
-    return isinstance(v, z3.ExprRef)
+    return type(v) is E
 
 
 class SymF:
@@ -184,7 +185,8 @@ def symf_of_const(c):
             m = abs(int(x)).bit_length() - k + 1
             if m > 41:
                 return None
-            return z3.RealVal(int(x)) / (1 << k) if k else z3.RealVal(int(x)), max(m, 1), k
+            from fractions import Fraction
+            return sx.RealVal(Fraction(int(x), 1 << k)), max(m, 1), k
     return None
 
 
@@ -732,12 +734,12 @@ class Interp:
             if v > hi:
                 v -= m
             return v
-        if self.ctx.implied(z3.And(v >= lo, v <= hi)):
+        if self.ctx.implied(sx.And(v >= lo, v <= hi)):
             return v
         m = 1 << t['bits']
         r = v % m
         if t['signed']:
-            r = z3.If(r > hi, r - m, r)
+            r = sx.If(r > hi, r - m, r)
         return r
 
     def trunc_div(self, a, b, signed):
@@ -747,8 +749,8 @@ class Interp:
         if not signed:
             return a / b
         if not is_sym(b) and b > 0:
-            return z3.If(a >= 0, a / b, -((-a) / b))
-        return z3.If(a >= 0, z3.If(b > 0, a / b, -(a / (-b))), z3.If(b > 0, -((-a) / b), (-a) / (-b)))
+            return sx.If(a >= 0, a / b, -((-a) / b))
+        return sx.If(a >= 0, sx.If(b > 0, a / b, -(a / (-b))), sx.If(b > 0, -((-a) / b), (-a) / (-b)))
 
     def trunc_rem(self, a, b, signed):
         if not is_sym(a) and not is_sym(b):
@@ -827,15 +829,15 @@ class Interp:
     def bool_binop(self, op, a, b):
         sym = is_sym(a) or is_sym(b)
         if op == 'BitAnd':
-            return z3.And(a, b) if sym else (a and b)
+            return sx.And(a, b) if sym else (a and b)
         if op == 'BitOr':
-            return z3.Or(a, b) if sym else (a or b)
+            return sx.Or(a, b) if sym else (a or b)
         if op == 'BitXor':
-            return z3.Xor(a, b) if sym else (a != b)
+            return sx.Xor(a, b) if sym else (a != b)
         if op == 'Eq':
             return a == b
         if op == 'Ne':
-            return z3.Xor(a, b) if sym else a != b
+            return sx.Xor(a, b) if sym else a != b
         if sym:
             raise Unsupported('bool binop %s on symbolic' % op)
         a, b = int(a), int(b)
@@ -904,18 +906,28 @@ class Interp:
                 mag, frac = a.mag + e, max(0, a.frac - e)
                 if mag + frac > 53 or mag < -40:
                     return None
-                return (SymF(a.r * (2 ** e) if e >= 0 else a.r / (2 ** (-e)), max(mag, 1), frac),)
+                from fractions import Fraction
+                return (SymF(a.r * Fraction(2) ** e, max(mag, 1), frac),)
             if op == 'Mul' and type(b) is SymF and type(a) is float:
                 return self.symf_binop('Mul', b, a, ta)
             return None
         xs = []
+        cmp_only = op not in ('Add', 'Sub')
         for v in (a, b):
             if type(v) is SymF:
                 xs.append((v.r, v.mag, v.frac))
             else:
                 c = symf_of_const(v)
                 if c is None:
-                    return None
+                    if cmp_only and v == v and v not in (math.inf, -math.inf):
+                        # a comparison creates no new float: the exact rational value of the constant is enough
+                        from fractions import Fraction
+                        c = (sx.RealVal(Fraction(v)), 99, 99)
+                    elif cmp_only and v in (math.inf, -math.inf):
+                        big = sx.RealVal(10 ** 400 if v > 0 else -10 ** 400)
+                        c = (big, 99, 99)
+                    else:
+                        return None
                 xs.append(c)
         (ra, ma, fa), (rb, mb, fb) = xs
         if op == 'Add' or op == 'Sub':
@@ -989,13 +1001,13 @@ class Interp:
             if type(v) is Enum:
                 v = st['var2discr'][v.v]
             if st['kind'] == 'bool':
-                v = z3.If(v, 1, 0) if is_sym(v) else int(v)
+                v = sx.If(v, 1, 0) if is_sym(v) else int(v)
             return self.int_wrap(v, tt)
         if kind == 'IntToFloat':
             st = self.p.tys[self.operand_ty(frame, op)]
             if is_sym(v):
-                if tt['bits'] == 64 and self.ctx.implied(z3.And(v > -(1 << 40), v < (1 << 40))):
-                    return SymF(z3.ToReal(v), 41, 0)
+                if tt['bits'] == 64 and self.ctx.implied(sx.And(v > -(1 << 40), v < (1 << 40))):
+                    return SymF(sx.ToReal(v), 41, 0)
                 v = self.ctx.concretize(v)
             r = float(v)
             return f32_round(r) if tt['bits'] == 32 else r
@@ -1152,7 +1164,7 @@ class Interp:
             else:
                 raise Unsupported('checked ' + op)
             if is_sym(r):
-                ovf = z3.Or(r < ta['lo'], r > ta['hi'])
+                ovf = sx.Or(r < ta['lo'], r > ta['hi'])
                 return Agg([r, ovf])
             ovf = r < ta['lo'] or r > ta['hi']
             return Agg([self.int_wrap(r, ta) if ovf else r, ovf])
@@ -1162,8 +1174,8 @@ class Interp:
                 if isinstance(v, bool):
                     return not v
                 if is_sym(v):
-                    if z3.is_bool(v):
-                        return z3.Not(v)
+                    if sx.is_bool(v):
+                        return sx.Not(v)
                     raise Unsupported('bitwise not on symbolic int')
                 t = self.p.tys[self.operand_ty(frame, d[1])]
                 return self.int_wrap(~v, t)
@@ -1415,9 +1427,9 @@ class Interp:
                     tg = td['targets']
                     if is_sym(v):
                         nxt = None
-                        isb = z3.is_bool(v)
+                        isb = sx.is_bool(v)
                         for val, bb in tg['branches']:
-                            cond = (v if val else z3.Not(v)) if isb else (v == val)
+                            cond = (v if val else sx.Not(v)) if isb else (v == val)
                             if ctx.branch(cond):
                                 nxt = bb
                                 break
@@ -1478,7 +1490,7 @@ class Interp:
                     v = self.eval_operand(frame, td['cond'])
                     exp = td['expected']
                     if is_sym(v):
-                        ok = ctx.branch(v if exp else z3.Not(v))
+                        ok = ctx.branch(v if exp else sx.Not(v))
                     else:
                         ok = (v == exp)
                     if ok:
